@@ -22,7 +22,7 @@ MIN_EVENTS = {"must-differ pairs": 1500, "must-be-equal pairs": 800,
               "cross-process hash comparisons": 60,
               "hash tied to fit_model": 20}
 TIMEOUT = {"quick": 900, "thorough": 3500}
-N_CASES = {"quick": 260, "thorough": 6000}     # pairs per shard
+N_CASES = {"quick": 260, "thorough": 30000}     # pairs per shard
 RULE = ("case = pair of (curve, settings) differing in exactly one thing: "
         "one default-settings key between two values of its domain, one "
         "attribute (value/min/max/vary/expr) of one initial parameter, the "
